@@ -54,7 +54,15 @@ type BCase struct {
 	// there are fewer); before that widgets are added to a layout without a view
 	ViewAt int   `json:"view_at,omitempty"`
 	Ops    []BOp `json:"ops"`
+	// AppWatchers: the application also watches every widget (a handler that
+	// takes note of content events and answers true), besides the layout
+	AppWatchers bool `json:"app_watchers,omitempty"`
 }
+
+// appWatcher is an application-side event handler on a widget.
+type appWatcher struct{ seen int }
+
+func (a *appWatcher) HandleEvent(ev tcell.Event) bool { a.seen++; return true }
 
 // ---- recording widgets
 
@@ -163,13 +171,14 @@ type bResult struct {
 type rect struct{ x1, y1, x2, y2 int }
 
 type bRun struct {
-	root    *recView
-	top     *box
-	inner   *box // attached nested box or nil
-	nextID  int
-	viewSet bool
-	res     bResult
-	seen    map[string]bool
+	root     *recView
+	top      *box
+	inner    *box // attached nested box or nil
+	nextID   int
+	appWatch bool
+	viewSet  bool
+	res      bResult
+	seen     map[string]bool
 	// expected marker positions, filled by checkBox
 	corners map[int][4][2]int
 	fillOK  []rect // absolute rectangles nested boxes may blank
@@ -185,7 +194,13 @@ func (r *bRun) class(s string) {
 func (r *bRun) newRec(k Kid) *entry {
 	id := r.nextID
 	r.nextID++
-	return &entry{rec: &recWidget{id: id, pw: k.PW, ph: k.PH}, fill: k.Fill % len(fills)}
+	e := &entry{rec: &recWidget{id: id, pw: k.PW, ph: k.PH}, fill: k.Fill % len(fills)}
+	if r.appWatch {
+		// two more watchers, so that the layout is rarely the first to be told
+		e.rec.Watch(&appWatcher{})
+		e.rec.Watch(&appWatcher{})
+	}
+	return e
 }
 
 func (r *bRun) boxOf(i int) *box {
@@ -465,7 +480,10 @@ func (r *bRun) observe(where fmt.Stringer, known *error) error {
 }
 
 func runB(c BCase) (bResult, error) {
-	r := &bRun{root: &recView{w: c.RW, h: c.RH}, seen: map[string]bool{}}
+	r := &bRun{root: &recView{w: c.RW, h: c.RH}, seen: map[string]bool{}, appWatch: c.AppWatchers}
+	if c.AppWatchers {
+		r.class("application-watchers")
+	}
 	r.top = &box{bl: views.NewBoxLayout(orientOf(c.Orient)), orient: c.Orient & 1}
 	var known error
 	setView := func() {
@@ -511,6 +529,10 @@ func runB(c BCase) (bResult, error) {
 			}
 			nb := &box{bl: views.NewBoxLayout(orientOf(op.Orient)), orient: op.Orient & 1}
 			nb.wrap = &nestedBox{BoxLayout: nb.bl}
+			if r.appWatch {
+				nb.bl.Watch(&appWatcher{})
+				nb.bl.Watch(&appWatcher{})
+			}
 			for _, k := range op.Pre {
 				if len(nb.kids) >= maxKids {
 					break
@@ -740,6 +762,7 @@ func genBCase(t *rapid.T) BCase {
 		}
 	})
 	c := BCase{RW: rootSize.Draw(t, "rw"), RH: rootSize.Draw(t, "rh"), Orient: orient.Draw(t, "orient")}
+	c.AppWatchers = rapid.IntRange(0, 2).Draw(t, "appwatch") == 0
 	if rapid.IntRange(0, 4).Draw(t, "late") == 0 {
 		c.ViewAt = rapid.IntRange(1, 6).Draw(t, "viewAt")
 	}
